@@ -66,7 +66,7 @@ def eval_doc(args):
 
 
 def run(tier, seed, open_findings):
-    rng = random.Random(seed); n = 60 if tier == 'thorough' else 16
+    rng = random.Random(seed); n = 1000 if tier == 'thorough' else 16
     docs = []
     for _ in range(n):
         k = rng.randrange(1, 4)
